@@ -161,6 +161,7 @@ def stream_violations(prop: str, buf: bytes, addr: int) -> Tuple[List[Violation]
     n = 0
     after_pre = 0
     prev_pre = False
+    streamed: List[Any] = []
     try:
         for ins, _a in _create_decoder(Decoder(bytearray(buf)), addr, OPCODES):
             alone = decode(bytes(buf[off:]), addr + off, OPCODES)
@@ -196,9 +197,22 @@ def stream_violations(prop: str, buf: bytes, addr: int) -> Tuple[List[Violation]
             n += 1
             if out:
                 break
+            streamed.append(ins)
     except BaseException as exc:  # noqa: BLE001
         if type(exc).__name__ not in ("NotImplementedError",):
             out.append(Violation("stream", "stream decoder", f"raises {type(exc).__name__}", case, f"at offset {off}: {str(exc)[:100]}"))
+    if prop == "C02" and not out and streamed:
+        # the decoded sequence encoded into ONE encoder (iter_encode) reproduces the consumed bytes
+        from sc62015.pysc62015.instr import iter_encode
+
+        try:
+            whole = bytes(iter_encode(streamed, addr))
+        except BaseException as exc:  # noqa: BLE001
+            whole = None
+            out.append(Violation("stream", "iter_encode of the streamed instructions", f"raises {type(exc).__name__}", case, str(exc)[:100]))
+        if whole is not None and whole != bytes(buf[:off]):
+            out.append(Violation("stream", "iter_encode of the streamed instructions", "differs from the bytes consumed", case,
+                                 f"consumed {bytes(buf[:off]).hex()} re-encoded {whole.hex()}"))
     return out, n, after_pre
 
 
@@ -211,6 +225,13 @@ def gen_stream(seed: int, pool: List[bytes]) -> Tuple[bytes, int, int]:
         h = mix32(seed, 2, i)
         src = prefixed if (prefixed and h % 5 < 2) else pool
         parts.append(src[(h >> 8) % len(src)])
+    # value coincidence across an instruction boundary: last byte of an instruction == prefix byte of the next one
+    # (kept only if the patched instruction is still accepted with the same length)
+    for i in range(1, len(parts)):
+        if parts[i][0] in G.PRE_OPCODES and len(parts[i - 1]) >= 2 and mix32(seed, 5, i) % 3 == 0:
+            cand = parts[i - 1][:-1] + bytes([parts[i][0]])
+            if G.info_len(cand + G.NOP_PAD) == len(cand):
+                parts[i - 1] = cand
     buf = b"".join(parts)
     h = mix32(seed, 3)
     if h % 4 == 0:
@@ -342,3 +363,46 @@ def gen_routine(seed: int, pool: List[bytes]) -> Tuple[bytes, int, List[int]]:
     buf = b"".join(bytes(p) for p in parts)
     extra = [(base + mix32(seed, 6, j) % (len(buf) + 4)) & 0xFFFFF for j in range(mix32(seed, 7) % 4)]
     return buf, base, extra
+
+
+# ---------------------------------------------------------------------------------------------- after a rejected operation
+FAIL_KINDS = ("encode-bad-value", "iter-encode-good-then-bad", "decode-invalid", "decode-truncated", "text-invalid")
+
+
+def rejected_operation(kind: str, victim: bytes, addr: int, seed: int) -> bool:
+    """Perform one operation that the code is expected to reject (raise / return None). Returns True if it was rejected."""
+    from sc62015.pysc62015.instr import decode, encode, iter_encode, OPCODES
+
+    a = G.arch()
+    try:
+        if kind in ("encode-bad-value", "iter-encode-good-then-bad"):
+            ins = decode(bytes(victim) + G.NOP_PAD, addr, OPCODES)
+            if ins is None:
+                return False
+            patched = False
+            for op in ins.operands():
+                for holder in (op, getattr(op, "imem", None), getattr(op, "offset", None)):
+                    if holder is not None and isinstance(getattr(holder, "value", None), int) and not isinstance(getattr(holder, "value"), bool):
+                        holder.value = (0x1FFFFFFF, -1, 0x1FF)[mix32(seed, 7) % 3]
+                        patched = True
+                        break
+                if patched:
+                    break
+            if not patched:
+                return False
+            if kind == "encode-bad-value":
+                encode(ins, addr)
+            else:
+                good = decode(bytes.fromhex("7dec") + G.NOP_PAD, addr, OPCODES)
+                iter_encode([good, ins], addr)
+            return False  # accepted the patched value: nothing was rejected
+        if kind == "decode-invalid":
+            bad = (bytes([0x56, 0x04, 0x10]), bytes([0x5E, 0x00, 0x10]), bytes([0xE3, 0x00, 0x10]), bytes([0x32, 0x32, 0x00]),
+                   bytes([0x20, 0x00]))[mix32(seed, 8) % 5]
+            return decode(bad + G.NOP_PAD, addr, OPCODES) is None
+        if kind == "decode-truncated":
+            return decode(bytes(victim[:max(1, len(victim) - 1)]), addr, OPCODES) is None
+        bad = (bytes([0x56, 0x04, 0x10]), bytes([0xE3, 0x00, 0x10]))[mix32(seed, 9) % 2]
+        return a.get_instruction_text(bad + G.NOP_PAD, addr) is None
+    except BaseException:  # noqa: BLE001 - a raised error is a rejection
+        return True
